@@ -390,6 +390,18 @@ where
 } 
 
 
+pub fn variant_name_conflict<A,B,V>( first: A, second: B, variant: V ) -> String 
+where 
+    A: ToString,
+    B: ToString,
+    V: ToString,
+{
+    format!("   Naming conflict: methods `{}` and `{}` are both turned into \
+    the Script variant `{}`. Please choose a different name for one of them.", 
+    first.to_string(),second.to_string(),variant.to_string())
+} 
+
+
 pub static AVAIL_FAMILY: &'static str = "
 #[interthread::family( 
     
